@@ -160,7 +160,7 @@ func (t *Target) StartRequest(req *http.Request) (*http.Request, error) {
 
 	inflightRequest := &inflightRequest{cancel: cancel}
 	t.inflight[req] = inflightRequest
-	verifEmit("claim", req, t)
+	verifEmit("claim", req, t, inflightRequest)
 
 	return req, nil
 }
@@ -453,6 +453,7 @@ func (t *Target) pendingRequestsToCancel() inflightMap {
 		result[k] = v
 	}
 
+	verifEmit("drain_snapshot", t, result)
 	return result
 }
 
@@ -488,6 +489,7 @@ func (r *targetResponseWriter) Hijack() (net.Conn, *bufio.ReadWriter, error) {
 	}
 
 	r.inflightRequest.hijacked.Store(true)
+	verifEmit("hijacked", r.inflightRequest)
 	return hijacker.Hijack()
 }
 
